@@ -17,36 +17,78 @@ import exprs as ex  # noqa: E402
 PID = 'C34'
 TOL = Fraction(1, 10 ** 9)
 RULE = ('random smooth functions from the primitive set {+ - * / neg pow exp ln sqrt sin cos tan tanh atan abs} '
-        '(depth <= 3, domains guarded by construction) x 1-3 inputs of size 1-2 x 1-2 outputs of size 1-3, wrapped by '
+        '(depth <= 3, domains guarded by construction) x scalar / 1-D / multi-dimensional input, output and state shapes '
+        '((), (n,), (2,3), (3,1,2), ...), more outputs than inputs and the reverse (both jvp / vjp directions), wrapped by '
         'om.func_api into ExplicitFuncComp / ImplicitFuncComp (method cs and jax) and as compute_primal of '
-        'JaxExplicitComponent / JaxImplicitComponent, with and without sparsity colouring; every output element and '
+        'JaxExplicitComponent / JaxImplicitComponent (dense, auto-detected and rows/cols-declared sparse partials), with '
+        'and without sparsity colouring, problem mode fwd/rev/auto, state arguments in any signature order; every output element and '
         'every jacobian entry is one interval-checked Coq goal against evalR / evalR (D ..) of the same expression')
 
 
+SHAPES_1D = [[1], [1], [2], [3]]
+SHAPES_ND = [[], [2, 3], [3, 1, 2], [2, 2], [1, 2], [2, 1]]
+
+
+def size(shape):
+    r = 1
+    for d in shape:
+        r *= d
+    return r
+
+
+def pick_shapes(rng, count, cap, nd):
+    """`count` shapes with total size <= cap; nd: probability of a scalar / multi-dimensional shape"""
+    for _ in range(100):
+        shp = [list(rng.choice(SHAPES_ND if rng.random() < nd else SHAPES_1D)) for _ in range(count)]
+        if sum(size(s) for s in shp) <= cap:
+            return shp
+    return [[1]] * count
+
+
+def vars_of(t, acc):
+    if t[0] == 'var':
+        acc.add(t[1])
+    for s in t[1:]:
+        if isinstance(s, list) and s and isinstance(s[0], str):
+            vars_of(s, acc)
+    return acc
+
+
 def gen_case(rng):
-    comp = rng.choice(['efunc'] * 4 + ['ifunc'] * 2 + ['jaxexp'] * 2 + ['jaximp'])
-    method = 'jax' if comp.startswith('jax') else rng.choice(['cs', 'cs', 'jax'])
-    for _ in range(200):
-        nin = rng.choice([1, 2, 2, 3])
-        invars = [[n, rng.choice([1, 1, 2])] for n in ['a', 'b', 'c'][:nin]]
-        c = {'comp': comp, 'method': method, 'invars': invars}
-        nenv = sum(s for _, s in invars)
-        if comp in ('ifunc', 'jaximp'):
-            m = rng.choice([1, 2])
-            c['states'] = [['s0', m]]
-            nenv += m
-            outs = [['r0', m]]
+    comp = rng.choice(['efunc'] * 4 + ['ifunc'] * 3 + ['jaxexp'] * 3 + ['jaximp'] * 2)
+    method = 'jax' if comp.startswith('jax') else rng.choice(['cs', 'jax', 'jax'])
+    implicit = comp in ('ifunc', 'jaximp')
+    for _ in range(300):
+        nd = rng.choice([0.0, 0.0, 0.5, 0.8])
+        tall = rng.random() < 0.5                 # more outputs than inputs (forward) or the reverse
+        nin = rng.choice([1, 2, 2])
+        c = {'comp': comp, 'method': method}
+        if implicit:
+            nst = rng.choice([1, 1, 2])
+            sshapes = pick_shapes(rng, nst, 5 if tall else 3, nd)
+            ishapes = pick_shapes(rng, nin, 3 if tall else 6, nd)
+            c['states'] = [['s%d' % k, s] for k, s in enumerate(sshapes)]
+            outs = [['r%d' % k, s] for k, s in enumerate(sshapes)]
+            if nst == 2 and comp == 'ifunc' and rng.random() < 0.5:
+                c['sig_order'] = [1, 0]
+            c['mode'] = rng.choice(['auto', 'auto', 'fwd', 'rev'])
         else:
-            outs = [['y%d' % k, rng.choice([1, 1, 2, 3])] for k in range(rng.choice([1, 1, 2]))]
-        c['colored'] = comp in ('efunc', 'jaxexp') and rng.random() < 0.5
+            nout = rng.choice([1, 2, 2]) if tall else rng.choice([1, 1, 2])
+            oshapes = pick_shapes(rng, nout, 7 if tall else 3, nd)
+            ishapes = pick_shapes(rng, nin, 3 if tall else 7, nd)
+            outs = [['y%d' % k, s] for k, s in enumerate(oshapes)]
+        c['invars'] = [[n, s] for n, s in zip(['a', 'b', 'c'], ishapes)]
+        allvars = c['invars'] + c.get('states', [])
+        nenv = sum(size(s) for _, s in allvars)
+        c['colored'] = rng.random() < 0.5 and not (comp == 'ifunc' and method == 'cs' and rng.random() < 0.5)
         x = [Fraction(rng.randrange(-16, 17), 8) for _ in range(nenv)]
         xs = [float(v) for v in x]
         c['x'] = [ex.jq(v) for v in x]
         good = True
         c['outs'] = []
-        for oname, sz in outs:
+        for oname, shape in outs:
             elems = []
-            for _ in range(sz):
+            for _ in range(size(shape)):
                 # sparse: each element sees a subset of the variables
                 sub = rng.sample(range(nenv), min(nenv, rng.choice([1, 2, 2, 3])))
                 e = ex.gen_expr(rng, len(sub), rng.choice([1, 2, 2, 3]), allow_abs=(method == 'jax'))
@@ -61,9 +103,28 @@ def gen_case(rng):
                 except (ValueError, ZeroDivisionError, OverflowError):
                     good = False
                 elems.append(e)
-            c['outs'].append([oname, elems])
-        if good:
-            return c
+            c['outs'].append([oname, shape, elems])
+        if not good:
+            continue
+        if comp in ('jaxexp', 'jaximp') and not c['colored'] and rng.random() < 0.6:
+            # partials declared sparsely by rows / cols = the structural dependencies (mostly non-symmetric)
+            ofnames = [s for s, _ in c['states']] if implicit else [o[0] for o in c['outs']]
+            sp = []
+            for ofn, (_, oshape, elems) in zip(ofnames, c['outs']):
+                off = 0
+                for wn, wshape in allvars:
+                    rows, cols = [], []
+                    for r, e in enumerate(elems):
+                        used = vars_of(e, set())
+                        for cc in range(size(wshape)):
+                            if off + cc in used:
+                                rows.append(r)
+                                cols.append(cc)
+                    off += size(wshape)
+                    if rows:
+                        sp.append([ofn, wn, None, None] if rng.random() < 0.2 else [ofn, wn, rows, cols])
+            c['sparse'] = sp
+        return c
     raise RuntimeError('generator failed')
 
 
@@ -74,7 +135,7 @@ def remap(t, sub):
 
 
 def gen(tier, rng):
-    n = 60 if tier == 'quick' else 1500
+    n = 90 if tier == 'quick' else 1500
     return [gen_case(rng) for _ in range(n)]
 
 
@@ -84,7 +145,7 @@ def qr(fr):
 
 def goals_for(idx, c, res):
     env = '[%s]' % '; '.join(qr(ex.fr(v)) for v in c['x'])
-    elems = [e for _, es in c['outs'] for e in es]
+    elems = [e for o in c['outs'] for e in o[2]]
     gl = []
     n = len(c['x'])
     for i, e in enumerate(elems):
